@@ -187,6 +187,8 @@ type vfSim struct {
 	trace   []string
 
 	scriptNext map[string]map[string][]bool // peer -> bundle ID -> outcomes, for a peer that is about to be added
+
+	inspectAll bool // the node inspects all administrative records, not only those addressed to it
 }
 
 const vfNodeName = "dtn://node/"
@@ -205,8 +207,13 @@ func vfScratch() string {
 
 // vfNewSim creates a node with the given routing configuration.
 func vfNewSim(c *vk.Ctx, conf RoutingConf) *vfSim {
+	return vfNewSimInspect(c, conf, false)
+}
+
+// vfNewSimInspect: as vfNewSim, with the node's "inspect all bundles" option.
+func vfNewSimInspect(c *vk.Ctx, conf RoutingConf, inspectAll bool) *vfSim {
 	vfRegisterBlocks()
-	s := &vfSim{c: c, dir: vfScratch(), nodeID: bpv7.MustNewEndpointID(vfNodeName), conf: conf, peers: map[string]*vfPeer{}}
+	s := &vfSim{c: c, dir: vfScratch(), nodeID: bpv7.MustNewEndpointID(vfNodeName), conf: conf, peers: map[string]*vfPeer{}, inspectAll: inspectAll}
 	s.boot()
 	return s
 }
@@ -214,7 +221,7 @@ func vfNewSim(c *vk.Ctx, conf RoutingConf) *vfSim {
 var vfCronJobs = []string{"pending_bundles", "clean_store", "spray_and_wait_gc", "binary_spray_gc", "dtlsr_purge", "dtlsr_recompute", "dtlsr_broadcast"}
 
 func (s *vfSim) boot() {
-	core, err := NewCore(s.dir, s.nodeID, false, s.conf, nil)
+	core, err := NewCore(s.dir, s.nodeID, s.inspectAll, s.conf, nil)
 	if err != nil {
 		s.failf("sim.harness", "NewCore: %v", err)
 	}
